@@ -46,6 +46,11 @@ pub fn seeds() -> Vec<(String, String)> {
         ("multi-line", "cmd a\n  (b\n  | c \"d\n e\")\n  [<X>]...\n;\n<X> ::= {{{ printf '%s\\n' 'x y'\n  echo z }}};\n"),
         ("escapes", "cmd foo\\.bar \\(x\\) a\\|b \"de\\\"s\\\\c\" x\\\\ ..\\. ;\n"),
         ("non-ascii", "cmd a \"d\u{e9}scr \u{201c}q\u{201d}\" {{{ echo \u{e9} }}};\n"),
+        ("non-ascii-before-warning", "cmd --greet \"za\u{17c}\u{f3}\u{142}\u{107} g\u{119}\u{15b}l\u{105} ja\u{17a}\u{144}\" <WHO> [--verbose | --quiet];\n"),
+        ("non-ascii-before-error", "cmd <A>;\n<A> ::= (x \"\u{105}\u{119}\u{107}\u{17c}\u{f3}\u{142}\u{144}\u{15b}\") | y; <A> ::= z;\n"),
+        ("non-ascii-before-unused", "cmd a \"\u{e9}\u{e9}\u{e9}\u{e9}\"; <X> = b; <Y@bash> = {{{ \u{e9} }}};\n"),
+        ("nested-word-fallback", "cmd --sort=((name|size)-(asc|desc) || none) t;\n"),
+        ("nested-word-fallback-defs", "cmd --sort=(<KEY> || none);\n<KEY> ::= <FIELD>-<DIR>;\n<FIELD> ::= name | size;\n<DIR> ::= asc | desc;\n"),
         ("comments", "# head\ncmd a # tail\n  b; # after\n\u{c}\n# end"),
         ("fallbacks", "cmd (a || b c || [d] e) ((f | g)... || <PATH>);\n"),
         ("subwords", "cmd --a=(b|c) x[y]z --u={{{ echo q }}} <P>=<DIRECTORY> k=<U>;\n<P> = p | pp;\n"),
